@@ -666,6 +666,37 @@ func (g *sessGen) logonExchange() {
 	g.run("in " + g.inbound("A", h))
 }
 
+// afterConnect: the connection is up and nobody has logged on yet.  Mostly the peer's Logon comes next; sometimes
+// something else happens first (a non-Logon message, a timeout, a stop, a send, a buffered arrival, a disconnect).
+func (g *sessGen) afterConnect() {
+	r := g.r
+	for k := 0; k < 3 && g.state == "Logon" && r.chance(1, 4); k++ {
+		switch r.intn(9) {
+		case 0:
+			g.run("timeout logon")
+		case 1:
+			g.run("stop")
+		case 2:
+			g.run("disc")
+		case 3:
+			g.appSend()
+		case 4:
+			g.run("timeout " + r.pick([]string{"hb", "peer", "logout"}))
+		case 5:
+			if g.ib < 12 {
+				g.randomInbound("arrive")
+			}
+		case 6:
+			g.run("pop")
+		default:
+			g.randomInbound("in")
+		}
+	}
+	if g.state == "Logon" {
+		g.logonExchange()
+	}
+}
+
 func (g *sessGen) appSend() {
 	g.payload++
 	f := []string{"9000=" + strconv.Itoa(g.payload)}
@@ -722,7 +753,7 @@ func genSess(r *rng, tier string, idx int, o *out, do func(string) string) strin
 	}
 	g.run("connect")
 	g.peerSeq = g.target
-	g.logonExchange()
+	g.afterConnect()
 	for i := 0; i < nEvents; i++ {
 		connected := !(g.state == "Latent" || g.state == "NotSessionTime")
 		if !connected {
@@ -730,7 +761,7 @@ func genSess(r *rng, tier string, idx int, o *out, do func(string) string) strin
 			case x < 6:
 				g.run("connect")
 				if g.state == "Logon" {
-					g.logonExchange()
+					g.afterConnect()
 				}
 			case x < 8:
 				g.appSend()
